@@ -72,6 +72,64 @@ def _job(args):
     return (kind, prop, name, "FALSE-ALARM", f"rc={rc} keys={keys[:3]} undecided={und[:2]}")
 
 
+SEEDED = Path(__file__).resolve().parent.parent / "seeded"
+
+
+def _kept_entries(props):
+    """Independent changes kept under seeded/: a seeded regression must be reported by every check recorded as reporting it,
+    a kept refactoring (twin) must be silent for every property (or, for the few recorded as outside the model, at least
+    never reported as a violation)."""
+    out = []
+    if not SEEDED.is_dir():
+        return out
+    all_props = [f"C{i:02d}" for i in range(1, 21)]
+    for d in sorted(SEEDED.iterdir()):
+        if d.name == "twins" or not (d / "meta.json").exists():
+            continue
+        meta = json.loads((d / "meta.json").read_text())
+        for prop in sorted(meta.get("checks_that_report_it", {})):
+            if props is None or prop in props:
+                out.append(("seed", prop, d.name, str(d / "patch.diff"), None))
+    tw = SEEDED / "twins"
+    if tw.is_dir():
+        for d in sorted(tw.iterdir()):
+            if not (d / "meta.json").exists():
+                continue
+            meta = json.loads((d / "meta.json").read_text())
+            undec = set(meta.get("undecided_ok", []))
+            for prop in all_props:
+                if props is None or prop in props:
+                    out.append(("kept-twin", prop, d.name, str(d / "patch.diff"), prop in undec))
+    return out
+
+
+def _job_kept(args):
+    kind, prop, name, patch, undecided_ok, root = args
+    from .engine import run_check
+    from .patches import PatchError, overrides_from_patch
+
+    repo_root = root or os.environ.get("HVLINT_REPO", "/repo")
+    try:
+        ov = overrides_from_patch(patch, repo_root)
+    except (PatchError, OSError) as e:
+        return (kind, prop, name, "n/a", f"patch does not apply to the current tree: {e}")
+    for rel, src in ov.items():
+        try:
+            compile(src, rel, "exec")
+        except SyntaxError as e:
+            return (kind, prop, name, "broken", f"patched file does not compile: {e}")
+    rc, chk = run_check(prop, "quick", root=root, overrides=ov, quiet=True, write=False)
+    keys = [i.key for i in getattr(chk, "new_violations", [])] if chk else []
+    if kind == "seed":
+        if rc == 1:
+            return (kind, prop, name, "ok", keys[0] if keys else "")
+        return (kind, prop, name, "MISSED", f"rc={rc} keys={keys[:3]}")
+    if rc == 0 or (rc == 2 and undecided_ok):
+        return (kind, prop, name, "ok", "" if rc == 0 else "undecided (outside the model)")
+    und = [f"{i.key}: {i.detail}"[:200] for i in getattr(chk, "undecided_armed", [])] if chk else []
+    return (kind, prop, name, "FALSE-ALARM", f"rc={rc} keys={keys[:3]} undecided={und[:2]}")
+
+
 def run(props=None, jobs=16, root=None, evidence_prop=None) -> int:
     t0 = time.time()
     todo = []
@@ -81,11 +139,13 @@ def run(props=None, jobs=16, root=None, evidence_prop=None) -> int:
     for i, t in enumerate(TWINS):
         if props is None or t[0] in props:
             todo.append(("twin", i, root))
-    if not todo:
+    kept = [e + (root,) for e in _kept_entries(props)]
+    if not todo and not kept:
         print("selftest: no catalogue entries for", props)
         return 0
-    with Pool(min(jobs, len(todo))) as pool:
-        results = pool.map(_job, todo, chunksize=1)
+    with Pool(min(jobs, max(1, len(todo) + len(kept)))) as pool:
+        results = pool.map(_job, todo, chunksize=1) if todo else []
+        results += pool.map(_job_kept, kept, chunksize=1) if kept else []
     bad = [r for r in results if r[3] in ("MISSED", "FALSE-ALARM", "broken")]
     na = [r for r in results if r[3] == "n/a"]
     ok = [r for r in results if r[3] == "ok"]
@@ -100,6 +160,8 @@ def run(props=None, jobs=16, root=None, evidence_prop=None) -> int:
             ev["coverage"]["selftest"] = {
                 "mutants_detected": len([r for r in ok if r[0] == "mutant"]),
                 "twins_silent": len([r for r in ok if r[0] == "twin"]),
+                "independent_seeded_changes_reported": len([r for r in ok if r[0] == "seed"]),
+                "independent_refactorings_silent": len([r for r in ok if r[0] == "kept-twin"]),
                 "not_applicable": [f"{r[0]}:{r[2]}" for r in na],
                 "failed": [f"{r[0]}:{r[2]}: {r[4]}" for r in bad],
                 "entries": [{"kind": r[0], "name": r[2], "result": r[3], "reported_as": r[4]} for r in results],
